@@ -12,6 +12,7 @@ import (
 	"encoding/json"
 	"fmt"
 	"log"
+	"math"
 	"os"
 	"path/filepath"
 	"sort"
@@ -125,10 +126,16 @@ func genVal(r *simrt.RNG, typ string, notnull bool, row int) gpkgh.Val {
 		if r.Chance(0.1) {
 			return gpkgh.IntVal(int64(r.Uint64()>>2) - (1 << 61)) // beyond 2^53
 		}
+		if r.Chance(0.03) {
+			return gpkgh.IntVal([]int64{math.MaxInt64, math.MinInt64, 0, -1}[r.Intn(4)])
+		}
 		return gpkgh.IntVal(int64(r.Uint64()%2000001) - 1000000)
 	case "REAL", "DOUBLE", "FLOAT", "DOUBLE PRECISION":
 		if r.Chance(0.15) {
 			return gpkgh.FloatVal(float64(int64(r.Uint64()%2001) - 1000)) // a whole number stays REAL
+		}
+		if r.Chance(0.03) {
+			return gpkgh.FloatVal([]float64{1e308, -1e308, 5e-324, 0.1}[r.Intn(4)]) // (SQLite does not keep the sign of -0.0)
 		}
 		return gpkgh.FloatVal(float64(int64(r.Uint64()%2000001)-1000000) / 128)
 	}
@@ -137,6 +144,10 @@ func genVal(r *simrt.RNG, typ string, notnull bool, row int) gpkgh.Val {
 		return gpkgh.TextVal("")
 	case 1:
 		return gpkgh.TextVal(strconv.Itoa(r.Intn(100000)))
+	case 2:
+		return gpkgh.TextVal("äöü € 漢字 it's \"quoted\"\nsecond line\t" + strconv.Itoa(row))
+	case 3:
+		return gpkgh.TextVal(strings.Repeat("long text ", 100+r.Intn(900)))
 	}
 	return gpkgh.TextVal(fmt.Sprintf("t%d-%x", row, r.Uint64()%65536))
 }
